@@ -430,6 +430,111 @@ def accumulation_sites(f, defs):
     return out
 
 
+def _has_pointer_mask(e, depth=0):
+    """does the expression contain the 14-bit pointer mask (`& 0x3fff`, or `& 0x3f` of the first byte)?"""
+    if depth > 12 or not isinstance(e, tuple):
+        return False
+    if e[0] == 'binop' and e[1] == 'BitAnd' and (e[2] in (('const', 0x3fff), ('const', 0x3f)) or e[3] in (('const', 0x3fff), ('const', 0x3f))):
+        return True
+    for x in e[1:]:
+        if isinstance(x, tuple) and _has_pointer_mask(x, depth + 1):
+            return True
+        if isinstance(x, (list,)):
+            for y in x:
+                if isinstance(y, tuple) and _has_pointer_mask(y, depth + 1):
+                    return True
+    return False
+
+
+def pointer_follow_sites(f, defs):
+    """blocks in which a loop-carried local (the cursor) is set to a decoded compression pointer"""
+    out = []
+    for bi, b in F.blocks(f):
+        for s in b['stmts']:
+            if s['k'] == 'assign' and not s['place']['proj'] and s['rv']['k'] == 'use' and s['rv']['x'].get('k') in ('copy', 'move') \
+                    and s['place']['local'] not in defs:
+                hit = _has_pointer_mask(F.expr(f, defs, s['rv']['x']))
+                if not hit:
+                    # the decoded pointer may have travelled through a Result and `?` (a checking helper spliced in): look at what it is made of
+                    rs = F.roots(f, defs, s['rv']['x'])
+                    hit = any(r in (('const', 0x3fff), ('const', 0x3f)) for r in rs) and any(r[0] in ('load', 'call', 'param') for r in rs)
+                if hit:
+                    out.append((bi, s))
+    return out
+
+
+def pointer_budget(facts, f, instate_of):
+    """(max pointers followed per call | None, counter description, problem | None).
+
+    A budget is a local that starts at a constant and moves by one (either way) exactly once per pointer followed: the step lies on
+    every path of a loop iteration that follows a pointer (before or after the follow).  The number of pointers one call can follow
+    is then the distance the counter can travel from its initial value, read off the relational invariant at the loop head."""
+    defs = F.single_defs(f)
+    follows = pointer_follow_sites(f, defs)
+    if not follows:
+        return None, None, 'no pointer follow (cursor := decoded 14-bit pointer) found'
+    loops = F.natural_loops(f)
+    best = None
+    problems = []
+    for c, info in sorted(F.unit_counters(f).items()):
+        steps = set(info['steps'])
+        ok = True
+        for fb, fs in follows:
+            hs = [h for h, body in loops.items() if fb in body]
+            if not hs:
+                ok = False
+                problems.append('the follow at %s is outside any loop' % fs.get('at'))
+                continue
+            h = min(hs, key=lambda x: len(loops[x]))
+            body = loops[h]
+            if not steps <= body:
+                ok = False
+                continue
+
+            def reach(src, avoid):
+                seen, todo = set(), [src]
+                while todo:
+                    n = todo.pop()
+                    if n in seen or n in avoid or n not in body:
+                        continue
+                    seen.add(n)
+                    for m in F.succ(f['blocks'][n]):
+                        if m != h:
+                            todo.append(m)
+                return seen
+            before = fb not in reach(h, steps)          # every way from the loop head to the follow passes the step
+            back_src = {n for n in body if h in F.succ(f['blocks'][n])}
+            after = not (reach(fb, steps) & back_src) if fb not in steps else True   # every way from the follow back to the head passes it
+            if fb in steps:
+                before = True
+            if not (before or after):
+                ok = False
+                problems.append('the pointer followed at %s does not always consume the budget held in _%d' % (fs.get('at'), c))
+        if not ok:
+            continue
+        inst = instate_of(f['key'])
+        if not inst:
+            problems.append('no invariant available for %s' % f['key'])
+            continue
+        fr, instate, heads, succ, ff = inst
+        vals = []
+        for (bb, pk), st in instate.items():
+            if bb in heads:
+                v = st.mem.get('%s._%d' % (fr, c))
+                if isinstance(v, Int):
+                    lo, hi = st.C.bounds(v.e)
+                    vals.append(lo if info['dir'] < 0 else hi)
+        if not vals or any(v is None for v in vals):
+            problems.append('the counter _%d is not bounded at the loop head' % c)
+            continue
+        travelled = max(abs(v - info['init']) for v in vals)
+        best = (travelled, 'local _%d: starts at %d, %s one per pointer' % (c, info['init'], 'minus' if info['dir'] < 0 else 'plus'))
+        break
+    if best is None:
+        return None, None, '; '.join(problems) or 'no counter that moves by one per pointer followed'
+    return best[0], best[1], None
+
+
 def limits_rule(ctx, facts, cfg, pol, e4):
     rid = 'C02.b'
     for key, needs_refs in ((WALK_C, True), (WALK_U, False)):
@@ -498,11 +603,14 @@ def limits_rule(ctx, facts, cfg, pol, e4):
                 ctx.violation(rid, key, 'accumulation-site', 'name-length accumulation not found / not bounded in %s' % key, kind='undecided', config=cfg)
         if needs_refs:
             v = facts.const_val('constants::DNS_MAX_HOSTNAME_INDIRECTIONS')
-            les = guard_consts(facts, f, 'Le')
-            ok = v == pol['pointer_max'] and 0 in les
-            ctx.instance(rid, 'pointer budget constant = %s, tested `<= 0` before each follow' % v, ok=ok, site=f['at'])
+            n_ptr, how, problem = pointer_budget(facts, f, lambda k_: e4.an.last_instate.get(k_))
+            ok = v == pol['pointer_max'] and n_ptr == pol['pointer_max']
+            ctx.instance(rid, 'pointer budget: at most %s pointers followed per name (%s); DNS_MAX_HOSTNAME_INDIRECTIONS = %s' % (n_ptr, how or problem, v), ok=ok, site=f['at'])
             if not ok:
-                ctx.violation(rid, key, 'pointer-budget', 'pointer budget: DNS_MAX_HOSTNAME_INDIRECTIONS = %s (policy %d), `<= 0` test present: %s' % (v, pol['pointer_max'], 0 in les), site=f['at'], config=cfg)
+                if n_ptr is None:
+                    ctx.violation(rid, key, 'pointer-budget', 'pointer budget of the validator not established: %s' % problem, site=f['at'], config=cfg, kind='undecided' if 'does not always' not in (problem or '') else 'rule-violated')
+                else:
+                    ctx.violation(rid, key, 'pointer-budget', 'pointer budget: one name can be reached through %s pointers (%s), policy %d; DNS_MAX_HOSTNAME_INDIRECTIONS = %s' % (n_ptr, how, pol['pointer_max'], v), site=f['at'], config=cfg)
             # strictly backward: the follow is guarded by `ref >= lowest_offset -> error`
             ges = guard_consts(facts, f, 'Ge')
             defs = F.single_defs(f)
